@@ -15,7 +15,7 @@ RULE = ("every interleaving (loom: DPOR, unbounded or preemption-bounded as list
         "acquire/release, and the dispatcher/worker throttling protocol of rehash(). A state is one complete "
         "execution; transitions are semaphore operations executed. Invariants: holders <= permits, no deadlock, "
         "permit count restored. Call-site conformance (binds the protocol model to group.rs): the real `group` runs "
-        "with RLIMIT_NOFILE reported as 100 (70, 150 in thorough) by the interposer while the real limit stays large, pools of 200-300 threads, pinned disk kind ssd / hdd / unknown (the latter two run the extents stage, whose FIEMAP calls all fail on tmpfs), 300 small / 120 three-stage "
+        "with RLIMIT_NOFILE reported as 100 (70, 150 in thorough) by the interposer while the real limit stays large (also: soft 100 / hard 4096 with setrlimit refused, so that the soft limit stays in force), pools of 200-300 threads, pinned disk kind ssd / hdd / unknown (the latter two run the extents stage, whose FIEMAP calls all fail on tmpfs), 300 small / 120 three-stage "
         "files, every read delayed by 20 ms (the schedule that maximises overlap); a monitor counts descriptors open "
         "on scanned files: never more than the reported limit, the run ends, every duplicate pair is reported. These "
         "runs are single executions (not exhaustive); they are counted as one state each.")
@@ -83,6 +83,12 @@ def cases(tier, seed):
     for disk in ("hdd", "unknown"):
         q.append({"engine": "e2e", "tree": "small300", "threads": ["-t", "300"], "extra": [], "nofile": 100, "disk": disk})
         q.append({"engine": "e2e", "tree": "big120", "threads": ["-t", "default:200,200"], "extra": [], "nofile": 100, "disk": disk})
+    # soft limit 100, hard limit 4096: raising the soft limit succeeds (budget 4091, nothing to see) or is refused
+    # (EPERM: seccomp / container) - then the budget must follow the soft limit that stays in force
+    q.append({"engine": "e2e", "tree": "small300", "threads": ["-t", "300"], "extra": [], "nofile": 100, "hard": 4096,
+              "setrlimit_errno": 1})
+    q.append({"engine": "e2e", "tree": "big120", "threads": ["-t", "default:200,200"], "extra": [], "nofile": 100, "hard": 4096,
+              "setrlimit_errno": 1})
     if tier == "quick":
         return q
     th = list(q)
@@ -118,6 +124,10 @@ def evaluate_e2e(case):
         C.make_tree(sc.tree, tree)
         args = ["group", "--min", "0", "-f", "json"] + case["threads"] + case["extra"] + ["r"]
         env = {"FCSHIM_FAKE_NOFILE": str(case["nofile"]), "FCSHIM_READ_DELAY_US": "20000", "FCLONES_VERIF_DISK_KIND": case.get("disk", "ssd")}
+        if case.get("hard"):
+            env["FCSHIM_FAKE_NOFILE_HARD"] = str(case["hard"])
+        if case.get("setrlimit_errno"):
+            env["FCSHIM_SETRLIMIT_ERRNO"] = str(case["setrlimit_errno"])
         res = S.run_with_shim(sc, args, [sc.tree], "r", env_extra=env, timeout=300)
         feat = {"mode": "call_sites", "engine": "e2e", "transform": bool(case["extra"])}
         ctx = "`fclones %s` with RLIMIT_NOFILE reported as %d, %d files of %d bytes, reads delayed" % (
@@ -142,7 +152,7 @@ def evaluate_e2e(case):
                     ctx, len(got), len(exp), res["err"][-200:])))
     contended = maxopen >= min(case["nofile"] - 5, 64) - 1
     return {"violations": viol, "states": 1, "transitions": max(opens, 1), "evaluations": 1,
-            "nontrivial": [["e2e", case["tree"], " ".join(case["threads"] + case["extra"]), case["nofile"], case.get("disk", "ssd")]] if contended else None,
+            "nontrivial": [["e2e", case["tree"], " ".join(case["threads"] + case["extra"]), case["nofile"], case.get("disk", "ssd"), case.get("hard"), case.get("setrlimit_errno")]] if contended else None,
             "outcome": "e2e_budget_reached" if contended else "e2e_budget_not_reached",
             "counters": {"e2e_max_open": maxopen, "e2e_runs": 1},
             "sample": {"case": case, "max_open": maxopen, "opens": opens}}
